@@ -562,8 +562,9 @@ where
         end_pos: usize,
         ops: &mut Vec<AlignmentOperation>,
     ) -> Option<(usize, $DistType)> {
+        let added_from = ops.len();
         self.path_at_reverse(end_pos, ops).map(|rv| {
-            ops.reverse();
+            ops[added_from..].reverse();
             rv
         })
     }
